@@ -2,8 +2,8 @@
 import z3
 
 from inputs import ConnV, SvcV, ev, expected_host_value, parse_authority, sym_uri, uri_scenario
-from interp import Agg, Cell, Enum, Ref
-from models import METHODS, HeaderMapV, HeaderValueV, RequestV, UriV, VERSIONS, deref, uri_text
+from interp import Agg, Cell, Enum, Inconclusive, Opaque, Ref
+from models import METHODS, HeaderMapV, HeaderValueV, RequestV, UriV, VERSIONS, deref, model, uri_text
 
 H2 = VERSIONS["HTTP_2"]
 CONNECT = METHODS.index("CONNECT")
@@ -118,8 +118,75 @@ def judge_h2(scn, out):
     return bad
 
 
+class HyperSenderV:
+    """hyper::client::conn::http{1,2}::SendRequest<B>: records what it is asked to send.  Contract taken
+    from hyper 1.x proto/h1/role.rs: the HTTP/1 encoder only knows HTTP/1.0 and HTTP/1.1 and panics
+    ("unexpected request version") on anything else."""
+
+    def __init__(self, kind):
+        self.kind = kind
+        self.sent = []
+
+
+@model("SendRequest::send_request", doc="hyper client SendRequest::send_request: records the request; the HTTP/1 sender panics (in the connection task) for a version other than HTTP/1.0 / HTTP/1.1")
+def _hyper_send(ctx, a, c):
+    from interp import Panic
+    snd = deref(ctx, a[0])
+    if not isinstance(snd, HyperSenderV):
+        raise Inconclusive("send_request on " + repr(snd))
+    req = a[1]
+    snd.sent.append(req)
+    ver = req.version.v
+    if snd.kind == "h1" and ctx.branch(z3.And(ver != VERSIONS["HTTP_10"], ver != VERSIONS["HTTP_11"]), "version unknown to hyper's HTTP/1 encoder"):
+        raise Panic("hyper h1 encoder: unexpected request version")
+    return Opaque("hyper response future")
+
+
+def send_request_obligation(prog, name, panic_only):
+    f_send = prog.find_one(r"connection::<impl at src/client/conn/connection\.rs:\d+:\d+: \d+:\d+>::send_request$", r"&mut HttpConnection<")
+
+    def run(ctx):
+        kind = ctx.choose([(True, "h1"), (True, "h2")], "connection protocol")
+        ver = z3.BitVec("version", 8)
+        ctx.assume(z3.ULE(ver, 4))
+        snd = HyperSenderV(kind)
+        ctx.snd, ctx.ver = snd, ver
+        conn = Agg("struct:HttpConnection", [Enum("InnerConnection", "H2" if kind == "h2" else "H1", 0 if kind == "h2" else 1, [snd])])
+        req = RequestV(z3.BitVec("method", 8), Opaque("uri"), ver, HeaderMapV())
+        return ctx.exec_fn(f_send, [Ref(Cell(conn, "conn")), req])
+
+    def check(p):
+        if p.outcome == "panic":
+            return [("sending a request with this version panics in the connection task: " + str(p.value)[:70], False)]
+        if panic_only:
+            return [("witness:reach", z3.BoolVal(True))]
+        snd = p.ctx.snd
+        want = VERSIONS["HTTP_2"] if snd.kind == "h2" else VERSIONS["HTTP_11"]
+        props = [("the request is handed to hyper exactly once", len(snd.sent) == 1)]
+        if snd.sent:
+            props.append((f"the request handed to the {snd.kind} connection carries that connection's version", snd.sent[0].version.v == want))
+        props.append(("witness:reach", z3.BoolVal(True)))
+        return props
+
+    def extract(p, m):
+        v = m.eval(p.ctx.ver, model_completion=True).as_long()
+        return {"family": "client_send_version", "version": {0: "0.9", 1: "1.0", 2: "1.1", 3: "2", 4: "3"}.get(v, "1.1"), "conn": p.ctx.snd.kind}
+
+    def judge(scn, out):
+        if out.get("result", "").startswith(("panic", "crash")) or int(out.get("panics", "0")) > 0:
+            return True
+        if "server_saw" not in out:
+            return None
+        return out["server_saw"] != ("HTTP/2.0" if scn.get("conn") == "h2" else "HTTP/1.1")
+
+    return {"name": name, "family": "send_request_version", "funcs": ["<HttpConnection<B> as Connection<B>>::send_request"],
+            "bound": "all five http::Version constants x HTTP/1 or HTTP/2 connection", "doc": "whatever version the caller's request carries, hyper receives the connection's own version (and therefore never one its HTTP/1 encoder rejects)",
+            "run": run, "check": check, "crosscheck": False, "cex_extract": extract, "judge": judge}
+
+
 def obligations(prog, src, tier, seed):
     obs = []
+    obs.append(send_request_obligation(prog, "c13_send_request_version", False))
     f_set = prog.find_one(r"^set_host_header$")
 
     def run_set(ctx):
